@@ -12,7 +12,7 @@ from gv.model import dbutil
 from gv.model.refdb import RefDB, RefAbort, impl_state
 
 ID = "C10"
-RULE = ("explicit-state BFS over histories of 22 events {update(7 bundles x strategies), delete (string / Feature / list forms), add_relation "
+RULE = ("explicit-state BFS over histories (first event: one of two initial databases, with / without an id-less feature) of 22 events {update(7 bundles x strategies), delete (string / Feature / list forms), add_relation "
         "(plain, with attribute rewrite), reopen} on a file database initialised with a 4-deep GFF3 chain plus an id-less exon; every "
         "reached state is compared with the reference model (features in order, relation triples) through a second read-only connection, "
         "and the .bak file with the pre-operation state; fault runs: for every representative state up to depth 2, four update bundles "
@@ -32,6 +32,8 @@ INIT = [
     "c1\ts\tpart\t1\t10\t.\t+\t.\tID=p1;Parent=e1",
     "c1\ts\texon\t60\t70\t.\t+\t.\tParent=m1",
 ]
+INIT_B = INIT[:4]      # every feature has an explicit ID: the database starts without any id counter
+INITS = {"I:chain+idless": INIT, "I:chain": INIT_B}
 BUNDLES = {
     "B1": ["c1\ts\tgene\t200\t300\t.\t-\t.\tID=g2", "c1\ts\tmRNA\t200\t300\t.\t-\t.\tID=m2;Parent=g2"],
     "B2": ["c1\ts\texon\t20\t30\t.\t+\t.\tID=e9;Parent=m9", "c1\ts\tmRNA\t1\t90\t.\t+\t.\tID=m9;Parent=g1"],
@@ -45,11 +47,11 @@ UPDATES = [("B1", "merge"), ("B1", "create_unique"), ("B2", "merge"),
            ("B3", "merge"), ("B3", "create_unique"), ("B3", "replace"), ("B3", "warning"),
            ("B4", "merge"), ("B4", "create_unique"), ("B4", "replace"), ("B4", "warning"),
            ("B5", "merge"), ("B6", "merge"), ("B6", "replace"), ("B7", "merge")]
-EVENTS = ["U:%s:%s" % u for u in UPDATES] + ["D:str:e1", "D:feat:m1", "D:list:p1,exon_1", "D:str:g1", "A:plain", "A:rewrite", "R"]
+EVENTS = list(INITS) + ["U:%s:%s" % u for u in UPDATES] + ["D:str:e1", "D:feat:m1", "D:list:p1,exon_1", "D:str:g1", "A:plain", "A:rewrite", "R"]
 
 
 def depth_of(tier):
-    return 3 if tier == "quick" else 4
+    return 4 if tier == "quick" else 5      # the first event picks the initial database
 
 
 def bounds(tier):
@@ -72,6 +74,8 @@ def _key(path, db):
 
 
 def enabled(ev, model):
+    if ev.startswith("I:"):
+        return False            # only as the very first event (handled in run_history)
     if ev.startswith("D:feat:"):
         return ev.split(":")[2] in model.feats
     if ev == "A:plain":
@@ -124,11 +128,16 @@ def apply_model(ev, model):
 
 def run_history(h, wdir, tag="bfs"):
     _clean(wdir)
+    if not h:
+        return dict(status="ok", key="root", violations=[], info=dict(root=True))
+    if h[0] not in INITS:
+        return dict(status="disabled", key=None, violations=[], info=None)
+    init, h_full, h = INITS[h[0]], h, h[1:]
     path = os.path.join(wdir, "h.db")
-    src = dbutil.write_text(wdir, "init.gff", "\n".join(INIT) + "\n")
+    src = dbutil.write_text(wdir, "init.gff", "\n".join(init) + "\n")
     db = gffutils.create_db(src, path, verbose=False)
     model = RefDB()
-    model.update(INIT)
+    model.update(init)
     fault = tag if isinstance(tag, tuple) and tag[0] == "fault" else None
     viol = []
     info = None
@@ -165,6 +174,7 @@ def run_history(h, wdir, tag="bfs"):
         exp = model.state()
         live = impl_state(dbutil.canon(db, attr_sets=True))
         sig = dict(last_event=":".join(h[-1].split(":")[:1] + h[-1].split(":")[2:3]) if h else "init")
+        h = h_full
         if got["features"] != exp["features"]:
             gi = [f[0] for f in got["features"]]
             ei = [f[0] for f in exp["features"]]
@@ -233,7 +243,7 @@ def run(tier, seed):
 
     def extra(reps):
         items = []
-        for d in (0, 1, 2):
+        for d in (1, 2, 3):
             for h in reps.get(d, []):
                 for b in ("B1", "B2", "B3", "B4"):
                     for k in range(len(BUNDLES[b]) + 1):
